@@ -2,6 +2,7 @@
    which every run executes against internal/xtypes on the harness' type pools). *)
 From Coq Require Import List ZArith NArith Bool String.
 From RG.Types Require Import GType XIdentical.
+From RGW Require Import Gen_XTypes Inst_XTypes.
 Import ListNotations.
 Local Open Scope string_scope.
 
@@ -54,6 +55,21 @@ Theorem C14_implements_x_is_spec :
   (implements_x v_is_iface lookup iface = true <-> implements_spec mset iface).
 Proof. exact implements_x_is_spec. Qed.
 Print Assumptions C14_implements_x_is_spec.
+
+(* ---- obligations over code regenerated from /repo on this run (go2coq xtypes) *)
+(* the cycle test of the recursive-interface comparison (ifacePair.identical) is equality of unordered address pairs *)
+Theorem C14_cycle_test_is_unordered_pair_equality :
+  forall px py qx qy : N, gen_pair_identical px py qx qy = true <-> (px = qx /\ py = qy) \/ (px = qy /\ py = qx).
+Proof. exact pair_identical_is_unordered_pair_equality. Qed.
+Print Assumptions C14_cycle_test_is_unordered_pair_equality.
+
+(* every identity / implements decision of the engine (Implements / IdenticalTo / HasMethod filters, the dsl/types natives
+   of custom filters, typematch) goes through internal/xtypes, none through the pointer-based go/types relations *)
+Theorem C14_relations_route_through_xtypes :
+  forallb site_present expected_sites = true /\ forallb site_clean gen_relation_sites = true /\
+  gen_pair_uses = 1%nat /\ gen_pair_pushes = 1%nat.
+Proof. exact (conj relation_sites_route_to_xtypes (conj no_go_types_relation_in_engine pair_stack_used_once)). Qed.
+Print Assumptions C14_relations_route_through_xtypes.
 
 (* recorded finding (known_findings.d/C14.json: tparam-cross-universe): completeness fails for type parameters *)
 Theorem C14_tparam_cross_universe_refuted :
